@@ -4,6 +4,7 @@ namespace Nfl.Prng18
 
 structure InvC (s : State) : Prop where
   trInitF : s.init = false → ∀ e ∈ s.trace, s.lock = some e.tid
+  trSeed : ∀ h, (s.thr h).pc.seeding = true → ∀ e ∈ s.trace, e.tid = h
   trCs : ∀ e ∈ s.trace, e.cs < s.acq.length ∧ (∀ h, s.lock = some h → e.tid ≠ h → e.cs + 1 < s.acq.length)
   csI : ∀ t, (s.thr t).pc ≠ .idle → (s.thr t).csidx < s.acq.length ∧
       (s.lock = some t → (s.thr t).csidx + 1 = s.acq.length) ∧
@@ -17,8 +18,8 @@ theorem invC_init (reqs : Nat → Nat) (n0 : Nat) : InvC (init reqs n0) := by
   constructor <;> simp [init]
 
 /-- a new event `b` of the mutex holder `t` is lock-ordered after every earlier conflicting event -/
-theorem holder_event_ok {seedVal : Nat → Nat} {n0 : Nat} {s : State} {t : Nat} (ha : InvA seedVal n0 s) (hc : InvC s)
-    (hl : s.lock = some t) (v : Var) (w : Bool) (hkey : v = .key → w = true → s.init = false) :
+theorem holder_event_ok {sd : Seeding} {seedVal : Nat → Nat} {n0 : Nat} {s : State} {t : Nat} (ha : InvA sd seedVal n0 s) (hc : InvC s)
+    (hl : s.lock = some t) (v : Var) (w : Bool) (hkey : v = .key → w = true → (s.thr t).pc.seeding = true) :
     ∀ a ∈ s.trace, Conflict a ⟨t, v, w, true, (s.thr t).csidx⟩ → LockOrdered a ⟨t, v, w, true, (s.thr t).csidx⟩ := by
   intro a hamem ⟨hne, hvar, hw⟩
   simp only at hne hvar hw
@@ -35,18 +36,17 @@ theorem holder_event_ok {seedVal : Nat → Nat} {n0 : Nat} {s : State} {t : Nat}
     obtain ⟨hk, hwa⟩ := h3.2 hai
     rw [hwa] at hw
     simp at hw
-    have hinit := hkey (by rw [← hvar, hk]) hw
-    have := hc.trInitF hinit a hamem
-    rw [hl] at this
-    exact hne (Option.some.inj this).symm
+    have hseed := hkey (by rw [← hvar, hk]) hw
+    exact hne (hc.trSeed t hseed a hamem)
 
-theorem invC_step {seedVal : Nat → Nat} {n0 : Nat} {s s' : State} {t : Nat}
-    (ha : InvA seedVal n0 s) (hi : InvC s) (hs : step seedVal s t = some s') : InvC s' := by
+theorem invC_step {sd : Seeding} {seedVal : Nat → Nat} {n0 : Nat} {s s' : State} {t : Nat}
+    (ha : InvA sd seedVal n0 s) (hi : InvC s) (hs : step sd seedVal s t = some s') : InvC s' := by
   have hi' := hi
-  obtain ⟨trInitF, trCs, csI, trKeyW, trShape, pw⟩ := hi
+  obtain ⟨trInitF, trSeed, trCs, csI, trKeyW, trShape, pw⟩ := hi
   have hlockI := ha.lockI
   have hseedF := ha.seedF
   have hseedPc := ha.seedPc t
+  have hseeding := ha.seedingI
   have hpast := ha.pastI t
   cases hpc : (s.thr t).pc <;> simp only [step, hpc] at hs
   case idle =>
@@ -58,7 +58,7 @@ theorem invC_step {seedVal : Nat → Nat} {n0 : Nat} {s s' : State} {t : Nat}
         simp at hs; subst hs
         constructor
         case pw => exact pw
-        all_goals (try grind [upd, Pc.inside, Pc.pastInit])
+        all_goals (try grind [upd, Pc.inside, Pc.pastInit, Pc.seeding])
   case gen =>
     simp at hs; subst hs
     have hnl : s.lock ≠ some t := by intro h; have := (hlockI t).mpr h; simp [hpc, Pc.inside] at this
@@ -72,12 +72,17 @@ theorem invC_step {seedVal : Nat → Nat} {n0 : Nat} {s s' : State} {t : Nat}
       simp only at hne hvar hw
       simp at hw
       exact ⟨(trShape a hamem).1 hw, trKeyW a hamem hvar hw t (fun h => hne h.symm) (by simp [hpc])⟩
-    all_goals (try grind [upd, Pc.inside, Pc.pastInit])
+    all_goals (try grind [upd, Pc.inside, Pc.pastInit, Pc.seeding])
   case unlock =>
     simp at hs; subst hs
     constructor
     case pw => exact pw
-    all_goals (try grind [upd, Pc.inside, Pc.pastInit])
+    all_goals (try grind [upd, Pc.inside, Pc.pastInit, Pc.seeding])
+  case seed =>   -- the call of randombytes: no access to the generator state yet
+    simp at hs; subst hs
+    constructor
+    case pw => exact pw
+    all_goals (try grind [upd, Pc.inside, Pc.pastInit, Pc.seeding])
   all_goals
     have hl : s.lock = some t := (hlockI t).mp (by simp [hpc, Pc.inside])
     simp at hs; subst hs
@@ -87,7 +92,7 @@ theorem invC_step {seedVal : Nat → Nat} {n0 : Nat} {s s' : State} {t : Nat}
       refine ⟨pw, by simp, ?_⟩
       intro a hamem b hb
       subst hb
-      exact holder_event_ok ha hi' hl _ _ (by intro h1 h2; first | exact (ha.seedPc t hpc).1 | cases h1 | cases h2) a hamem
-    all_goals (try grind [upd, Pc.inside, Pc.pastInit])
+      exact holder_event_ok ha hi' hl _ _ (by intro h1 h2; first | (simp [hpc, Pc.seeding]; done) | cases h1 | cases h2) a hamem
+    all_goals (try grind [upd, Pc.inside, Pc.pastInit, Pc.seeding])
 
 end Nfl.Prng18
